@@ -10,7 +10,19 @@ spec/redis/Cluster.tla with migration disabled and a loaded table:
     executing the same program, plus MGET/EXISTS observers spanning nodes; no redirection may occur;
  3. every supported keyed command (the proxy's own tables) is sent with random keys (hash tags, CR LF NUL) and
     arguments: exactly one backend command, at the owner of the key's slot, arguments byte-identical, reply =
-    reference.
+    reference;
+ 4. the routing table is rewritten entry by entry, without a lock, while commands are routed (Cluster.tla StepwiseRefresh,
+    Tick): FirstHopIsOwner must hold at every point of a refresh; the broken variant ClearBeforeFill (table emptied before
+    it is rewritten) must violate it (anti-vacuity). Code: cluster-refreshrace lets the refresher run back to back while
+    several connections issue keyed commands; no command may reach a node that does not own its key, no redirection;
+ 5. multi-key commands are their per-key commands combined in ARGUMENT ORDER (spec/redis/ClusterSplit.tla: RefMulti is the
+    definition, the machine is Split / per-node FIFO / assembly by position; broken variants DedupKeys and AssembleByArrival
+    must violate EqualsReference). TLC emits the complete space of argument lists up to the bound, WITH repeated keys, over
+    every set of existing keys (@@VEC) and random programs (@@BEH); each is sent through the proxy as EXISTS, TOUCH, DEL,
+    UNLINK, MGET, MSET and judged against the single reference engine and against the specification's reply.
+
+Modules owned (with C04): spec/redis/Cluster.tla, ClusterGen.tla, ClusterSplit.tla, ClusterSplitGen.tla, MC_Cluster*.cfg,
+MC_ClusterSplit*.cfg, Gen_Cluster*.cfg, Gen_ClusterSplit.cfg; harness/cases/cluster, harness/cmd/cluster; checks/clusterlib.py.
 """
 import os
 
@@ -29,7 +41,19 @@ def run(ctx):
     r = ctx.mc("redis", "MC_Cluster", "MC_Cluster_stable_thorough.cfg" if ctx.thorough else "MC_Cluster_stable.cfg",
                workers=8, timeout=1500, coverage=not ctx.thorough)
     if r.coverage:
-        ctx.check_vacuity(r, "Cluster", ignore=("AskSecond", "Refresh", "SetMigrating", "MigrateKey", "Finalise", "DialError", "Failover"))
+        ctx.check_vacuity(r, "Cluster", ignore=("AskSecond", "Refresh", "SetMigrating", "MigrateKey", "Finalise", "DialError", "Failover",
+                                                "ParkedResend"))
+        for a in ("RefreshBegin", "RefreshWrite", "Tick"):
+            if not r.coverage.get(a):
+                raise kit.Inconclusive("vacuous model Cluster (stable): action %s never taken" % a)
+    # anti-vacuity: a refresher that empties the table before it rewrites it breaks FirstHopIsOwner on a stable cluster
+    ctx.mc("redis", "MC_Cluster", "MC_Cluster_stable_clearfirst.cfg", workers=4, timeout=600,
+           expect_violated=["FirstHopIsOwner"], count=False)
+    if ctx.thorough:   # the window itself: a command can be routed between two table writes of one refresh
+        ctx.mc("redis", "MC_Cluster", "MC_Cluster_stable_window.cfg", workers=4, timeout=600,
+               expect_violated=["NoRouteDuringRefresh"], count=False)
+    clusterlib.split_commands(ctx)
+    clusterlib.refresh_race(ctx)
     clusterlib.gen_and_replay(ctx, "Gen_Cluster_stable.cfg", 200 if ctx.thorough else 25, True, "stable",
                               extra=["-big"] if ctx.thorough else [])
     cfile = os.path.join(ctx.work, "cmds.ndjson")
@@ -42,4 +66,6 @@ def run(ctx):
             ctx.violation("relay/" + r["cmd"], "%s %r: %s (got %s want %s)" % (r["cmd"], r.get("key"), r.get("why"), r.get("got"), r.get("want")), r)
     ctx.cov["commands_relayed"] = n
     ctx.cov["rule"] = ("programs = TLC simulation of ClusterGen (stable), distinct by event sequence; per-command relay cases distinct by (command, key); "
+                       "multi-key vectors = the complete set emitted by ClusterSplitGen, distinct by (existing keys, class, argument list); "
+                       "refresh-race runs counted by their requests; "
                        "all are non-trivial (every case routes at least one keyed command through the real proxy)")
